@@ -140,3 +140,33 @@ def mask_errors(out):
     if out is not None and "(err " in out:
         return "(err)"
     return out
+
+
+def radix_boundaries():
+    """Integer literals around machine-word boundaries in every base: the digit counts at which a u32/i64/u64/u128
+    fast path would start or stop fitting (one digit less, exactly, one more), with smallest / largest leading digit,
+    all-max digits, leading zeros, underscores and both prefix cases. Deterministic."""
+    out = []
+    specs = [("0x", 16, "0123456789abcdef"), ("0X", 16, "0123456789ABCDEF"), ("0o", 8, "01234567"), ("0O", 8, "01234567"),
+             ("0b", 2, "01"), ("0B", 2, "01"), ("", 10, "0123456789")]
+    seen = set()
+    for pre, base, digs in specs:
+        for bits in (31, 32, 63, 64, 65, 66, 127, 128):
+            for v in (2 ** bits - 1, 2 ** bits, 2 ** bits + 1, 2 ** (bits + 1) - 1):
+                s = ""
+                n = v
+                while n:
+                    s = digs[n % base] + s
+                    n //= base
+                cands = [s, s[0] + "_" + s[1:] if len(s) > 1 else s, "_".join(s[i:i + 4] for i in range(0, len(s), 4))]
+                if pre:
+                    cands += ["0" + s, "000" + s, "_" + s]
+                # same number of digits, every leading digit, rest max / rest zero
+                for lead in digs[1:]:
+                    cands += [lead + digs[-1] * (len(s) - 1), lead + digs[0] * (len(s) - 1)]
+                for c in cands:
+                    t = pre + c
+                    if t not in seen:
+                        seen.add(t)
+                        out.append(t)
+    return out
